@@ -254,6 +254,55 @@ def gen_op(rng, bs, malformed=False):
 def call(obj, op, spelling=0):
     """apply `op` to a tensordict (or to a torch tensor: same method names)."""
     name = op[0]
+    is_t = isinstance(obj, torch.Tensor)
+    if spelling == 3:
+        # the torch-function spelling (tensordict/_torch_func.py registers these); ops without one fall through to the method
+        if name == "permute" and op[1]:
+            return torch.permute(obj, tuple(op[1]))
+        if name == "transpose":
+            return torch.transpose(obj, op[1], op[2])
+        if name == "squeeze" and op[1] is not None:
+            return torch.squeeze(obj, op[1])
+        if name == "unsqueeze":
+            return torch.unsqueeze(obj, op[1])
+        if name == "flatten":
+            return torch.flatten(obj, op[1], op[2])
+        if name == "unflatten":
+            return torch.unflatten(obj, op[1], tuple(op[2]))
+        if name == "unbind":
+            return torch.unbind(obj, op[1])
+        if name == "split":
+            return torch.split(obj, op[1], op[2])
+        if name == "splitlist":
+            return torch.split(obj, list(op[1]), op[2])
+    if spelling == 4 and not is_t:
+        # keyword spelling of the method (tensordict parameter names)
+        if name == "transpose":
+            return obj.transpose(dim0=op[1], dim1=op[2])
+        if name == "flatten":
+            return obj.flatten(start_dim=op[1], end_dim=op[2])
+        if name == "unflatten":
+            return obj.unflatten(dim=op[1], unflattened_size=tuple(op[2]))
+        if name == "unbind":
+            return obj.unbind(dim=op[1])
+        if name == "split":
+            return obj.split(split_size=op[1], dim=op[2])
+        if name == "splitlist":
+            return obj.split(split_size=list(op[1]), dim=op[2])
+        if name == "chunk":
+            return obj.chunk(chunks=op[1], dim=op[2])
+        if name == "view" and op[1]:
+            return obj.view(size=tuple(op[1]))
+        if name == "expand" and op[1]:
+            # expand_as: the target only contributes its shape
+            if all(d >= 0 for d in op[1]):
+                return obj.expand_as(torch.empty(tuple(op[1])))
+    if spelling == 5 and not is_t:
+        # defaulted arguments
+        if name == "flatten" and op[2] == -1:
+            return obj.flatten(op[1]) if op[1] != 0 else obj.flatten()
+        if name in ("split", "splitlist", "chunk") and op[2] == 0:
+            return getattr(obj, "chunk" if name == "chunk" else "split")(list(op[1]) if name == "splitlist" else op[1])
     if name == "permute":
         if spelling == 1 or not op[1]:
             return obj.permute(list(op[1]))
@@ -613,6 +662,11 @@ def gen_ext(rng):
         return kind, [spec], (tuple(reps),)
     if kind == "repeat_interleave":
         d = rng.randint(-n - 2, n + 1) if wild else rng.randrange(-n, n)
+        if not wild and rng.random() < 0.3:
+            # documented: `repeats (torch.Tensor or int)`, one count per element along dim (or a single count)
+            dd = d + n if d < 0 else d
+            reps = torch.tensor([rng.choice([0, 1, 1, 2, 3]) for _ in range(rng.choice([bs[dd], bs[dd], 1]))], dtype=torch.int64)
+            return kind, [spec], (reps, d)
         return kind, [spec], (rng.choice([-1, 0, 1, 2]) if wild else rng.choice([0, 1, 2, 3]), d if wild else rng.choice([d, d, None]))
     if kind == "gather":
         d = rng.randrange(-n, n)
@@ -621,10 +675,19 @@ def gen_ext(rng):
         hi = bs[dd]
         if hi == 0:
             ishape[dd] = 0
+        if n > 1 and rng.random() < 0.25:
+            # torch.gather accepts an index that is smaller than the input outside `dim` (result = index.shape); tensordict documents
+            # that only the gathering dim may differ: it must then REJECT (a singleton must not be silently broadcast)
+            o = rng.choice([k for k in range(n) if k != dd])
+            if bs[o] > 1:
+                ishape[o] = rng.choice([1, 1, bs[o] - 1])
         index = torch.tensor([rng.randrange(hi) if hi else 0 for _ in range(numel(ishape))], dtype=torch.int64).reshape(ishape)
         return kind, [spec], (d, index)
     if kind == "masked_select":
-        mask = torch.tensor([rng.random() < 0.5 for _ in range(numel(bs))], dtype=torch.bool).reshape(bs)
+        # a mask over the leading k batch dims (k = all of them most of the time): `x[mask]` semantics
+        k = n if (n == 0 or rng.random() < 0.7) else rng.randint(1, n)
+        mshape = tuple(bs[:k])
+        mask = torch.tensor([rng.random() < 0.5 for _ in range(numel(mshape))], dtype=torch.bool).reshape(mshape)
         return kind, [spec], (mask,)
     k = rng.choice([1, 2, 2, 3, 4])
     if kind in ("stack", "stack_out"):
@@ -664,12 +727,26 @@ def ext_names(kind, names, n, args):
     return None
 
 
-def oracle_ext(run, kind, specs, args, site="shape_op_ext"):
+def oracle_ext(run, kind, specs, args, site="shape_op_ext", container=None, rng=None):
+    """container in {None, 'tc', 'lazy'}: single-operand kinds on a tensorclass (delegates to the TensorDict code: same site as the
+    dense ops) or on a lazy stack (own implementation in _lazy.py: a refusal is not judged, only a wrong result / non-termination)"""
     n = len(specs[0][1])
-    tds = [build_offset(s, 100000 * i) for i, s in enumerate(specs)]
+    if container is not None:
+        cont, sp = build_container(specs[0], container, rng)
+        if cont is None:
+            return
+        specs = [sp]
+        tds = [cont]
+        site = "shape_op" if container == "tc" else "shape_op_lazy"
+    else:
+        tds = [build_offset(s, 100000 * i) for i, s in enumerate(specs)]
     idxs = [torch.arange(numel(s[1]), dtype=torch.int64).reshape(s[1]) for s in specs]
     case = {"kind": kind, "tds": [spec_sx(s) for s in specs], "args": [a.tolist() if isinstance(a, torch.Tensor) else a for a in args]}
-    run.count("ext.kind", kind)
+    if container is not None:
+        case["container"] = container
+        if container == "lazy":
+            case["stack_dim"] = tds[0]._c02_stack_dim
+    run.count("ext.kind", kind if container is None else f"{kind}@{container}")
 
     def go(objs, use_out=False):
         x = objs[0]
@@ -715,21 +792,48 @@ def oracle_ext(run, kind, specs, args, site="shape_op_ext"):
             r = f(list(objs), args[0], out=out)
             return out if r is None else r
         return f(list(objs), args[0])
+    pfx = ""
     try:
         ref = go(idxs)
         terr = None
     except Exception as e:  # noqa: BLE001
         ref, terr = None, e
+    if container == "lazy" and ref is not None:
+        # a result without members along the stack dim (repeat 0 times / a mask that keeps nothing): a lazy stack takes its keys and
+        # the batch size of its members from its members, so such a result has lost them (known finding, same class as the empty split piece)
+        sd = tds[0]._c02_stack_dim
+        if (kind in ("repeat", "repeat_interleave") and ref.dim() > sd and ref.shape[sd] == 0 and (kind == "repeat" or args[1] is not None)) \
+                or (kind == "repeat_interleave" and args[1] is None and ref.shape[0] == 0) \
+                or (kind == "masked_select" and ref.shape[0] == 0):
+            # (repeat_interleave without dim flattens first: `reshape(-1)` is again a lazy stack, along dim 0)
+            pfx = "empty-stack-result:"
     try:
         with time_limit(30.0):
             res = go(tds, use_out=kind.endswith("_out"))
         ierr = None
     except Exception as e:  # noqa: BLE001
         res, ierr = None, e
+    if ierr is None and container is not None:
+        try:
+            with time_limit(30.0):
+                res = densify(res)
+        except Exception as e:  # noqa: BLE001
+            run.oracle_fail(site, case, f"the result cannot be read back: {type(e).__name__}: {str(e)[:100]}", f"{pfx}{kind}:unreadable-result:{type(e).__name__}")
+            return
+    if ierr is not None and container == "lazy":
+        if isinstance(ierr, TimeoutError):
+            run.oracle_fail(site, case, "does not terminate", f"{pfx}{kind}:timeout")
+        else:
+            run.count(site + ".refused", kind)
+        return
     if ierr is not None:
         if terr is None:
             if kind == "gather" and args[1].numel() == 0:
                 run.count("ext.stricter_rejection", "gather with an empty index ('Cannot use torch.gather with an empty index')")
+                run.oracle_ok(site)
+                return
+            if kind == "gather" and any(k != (args[0] + n if args[0] < 0 else args[0]) and args[1].shape[k] != specs[0][1][k] for k in range(n)):
+                run.count("ext.stricter_rejection", "gather: the index may differ from the batch size only along dim (documented)")
                 run.oracle_ok(site)
                 return
             if kind == "repeat" and len(args[0]) != n:
@@ -746,28 +850,35 @@ def oracle_ext(run, kind, specs, args, site="shape_op_ext"):
                 run.count("ext.stricter_rejection", "cat dim out of range on all-empty operands")
                 run.oracle_ok(site)
                 return
-            run.oracle_fail(site, case, f"tensordict raises {type(ierr).__name__}: {str(ierr)[:120]} but torch accepts", f"{kind}:rejects-torch-accepts:{type(ierr).__name__}")
+            run.oracle_fail(site, case, f"tensordict raises {type(ierr).__name__}: {str(ierr)[:120]} but torch accepts", f"{pfx}{kind}:rejects-torch-accepts:{type(ierr).__name__}")
             return
         run.oracle_ok(site)
         return
     if terr is not None:
-        run.oracle_fail(site, case, f"tensordict accepts but torch raises {type(terr).__name__}: {str(terr)[:100]}", f"{kind}:accepts-torch-rejects")
+        run.oracle_fail(site, case, f"tensordict accepts but torch raises {type(terr).__name__}: {str(terr)[:100]}", f"{pfx}{kind}:accepts-torch-rejects")
         return
+    if container is not None:
+        # reading a container's result back goes through more library code (lazy nested entries): a failure there is the library's
+        try:
+            _ = (tuple(res.batch_size), list(res.names), list(res.keys(True, False)), [v.shape for v in res.values(True, True)])
+        except Exception as e:  # noqa: BLE001
+            run.oracle_fail(site, case, f"the result cannot be read back: {type(e).__name__}: {str(e)[:100]}", f"{pfx}{kind}:unreadable-result:{type(e).__name__}")
+            return
     if tuple(res.batch_size) != tuple(ref.shape):
-        run.oracle_fail(site, case, f"batch_size {tuple(res.batch_size)} but torch gives {tuple(ref.shape)}", f"{kind}:batch")
+        run.oracle_fail(site, case, f"batch_size {tuple(res.batch_size)} but torch gives {tuple(ref.shape)}", f"{pfx}{kind}:batch")
         return
     names = specs[0][2] if specs[0][2] is not None else [None] * n
     want = ext_names(kind, names, n, args)
     if not names_ok(res.names, want):
-        run.oracle_fail(site, case, f"names {list(res.names)} expected {want}", f"{kind}:names")
+        run.oracle_fail(site, case, f"names {list(res.names)} expected {want}", f"{pfx}{kind}:names")
         return
     got_keys = sorted((k,) if isinstance(k, str) else tuple(k) for k in res.keys(True, False))
     if got_keys != spec_keys(specs[0]):
-        run.oracle_fail(site, case, f"keys {got_keys} expected {spec_keys(specs[0])}", f"{kind}:keys")
+        run.oracle_fail(site, case, f"keys {got_keys} expected {spec_keys(specs[0])}", f"{pfx}{kind}:keys")
         return
     bad = check_ext_entries(res, specs, n, kind, args, ref, ())
     if bad:
-        run.oracle_fail(site, case, bad, f"{kind}:{bad.split(' ')[0]}")
+        run.oracle_fail(site, case, bad, f"{pfx}{kind}:{bad.split(' ')[0]}")
         return
     run.oracle_ok(site)
 
